@@ -48,7 +48,7 @@ func dispatchFn(w *World) (*ssa.Function, *ssa.Call) {
 
 func c10(r *Run) {
 	w := r.W
-	ro := rolesOf(w)
+	ro := r.roles()
 	px := protoEffects(w)
 	disp, getCall := dispatchFn(w)
 	slot := ssa.Value(getCall)
@@ -56,7 +56,7 @@ func c10(r *Run) {
 	isDo := func(i ssa.Instruction) bool { return isCall(i, ro.opDo) && recvVal(callCommon(i)) == slot }
 	doCalls := findIns(disp, isDo)
 	if len(doCalls) != 1 {
-		broken("ANCHOR-LOST config=%s: %d do() calls on the fetched slot in %s", w.Cfg.Name, len(doCalls), w.FnName(disp))
+		r.absentf(" config=%s: %d do() calls on the fetched slot in %s", w.Cfg.Name, len(doCalls), w.FnName(disp))
 	}
 	doCall := doCalls[0]
 	doOK := callResultAtom(ro.opDo, true)
@@ -79,7 +79,7 @@ func c10(r *Run) {
 		// at most once
 		rel := findIns(disp, releases)
 		if len(rel) < 3 {
-			broken("ANCHOR-LOST config=%s: only %d token releases in the dispatch function", w.Cfg.Name, len(rel))
+			r.absentf(" config=%s: only %d token releases in the dispatch function", w.Cfg.Name, len(rel))
 		}
 		for i, x := range rel {
 			ss := &Search{Fn: disp, Stop: isIns(getCall)}
@@ -122,7 +122,7 @@ func c10(r *Run) {
 			r.obW(fmt.Sprintf("C10.R2:field-under-token:%s#%d", fname, n), "a field of the fetched slot is accessed only while its token is held (the slot may be reset and reused by another connection otherwise)", disp, ins, wit, "guarded by do()==true")
 		}
 		if n < 5 {
-			broken("ANCHOR-LOST config=%s: only %d slot field accesses in the dispatch function", w.Cfg.Name, n)
+			r.absentf(" config=%s: only %d slot field accesses in the dispatch function", w.Cfg.Name, n)
 		}
 		// helpers that get the slot are called under the token
 		for _, ins := range allIns(disp) {
@@ -323,7 +323,7 @@ func usesSlotParam(i ssa.Instruction, fn *ssa.Function) bool {
 // c10ConnSide: every use of c.operator's token / Control in connection methods is justified.
 func c10ConnSide(r *Run) {
 	w := r.W
-	ro := rolesOf(w)
+	ro := r.roles()
 	px := protoEffects(w)
 	flush := w.MustFn("(*connection).flush")
 	waitFlush := w.MustFn("(*connection).waitFlush")
@@ -348,7 +348,7 @@ func c10ConnSide(r *Run) {
 		}
 	})
 	if len(pollerFlow) < 4 {
-		broken("ANCHOR-LOST C10: initFDOperator binds only %d connection callbacks", len(pollerFlow))
+		r.absentf(" C10: initFDOperator binds only %d connection callbacks", len(pollerFlow))
 	}
 	// close over callees reachable from the poller flow (same receiver, static calls), except OnHup which runs detached without the token
 	inFlow := map[*ssa.Function]string{}
@@ -430,7 +430,7 @@ func c10ConnSide(r *Run) {
 		}
 	}
 	if n < 5 {
-		broken("ANCHOR-LOST C10: only %d connection-side slot uses", n)
+		r.absentf(" C10: only %d connection-side slot uses", n)
 	}
 	// Release(): the token it takes is released on every path, and the buffer walk happens under it
 	rel := w.MustFn("(*connection).Release")
